@@ -24,7 +24,8 @@ COMMON_VSS = 'mithril_common::protocol::multi_signer::MultiSigner::verify_single
 
 
 def has(og, pat):
-    return any(glob_match(pat, o) for o in og)
+    # a field path under the named origin also counts (getters spliced by the inliner make origins more precise)
+    return any(glob_match(pat, o) or (pat[-1] != '*' and glob_match(pat + '.*', o)) for o in og)
 
 
 def run(ctx):
